@@ -182,3 +182,28 @@ def axis_to_dim_eval(repo: Repo, ndim: int, axis):
     if aname != "axis":
         raise AnalysisError("axis_to_dim: parameter naming not recognised")
     return run(fn.body)
+
+
+def peel_floor(e: ast.AST):
+    """(inner, floors): strips lower-bounding wrappers clamp(x, min=c) / x.clamp(min=c) / maximum(x, c) / clamp_min / x + c."""
+    floors = []
+    while True:
+        if isinstance(e, ast.Call) and isinstance(e.func, ast.Attribute) and e.func.attr in ("clamp", "clip", "clamp_min", "maximum"):
+            is_torch = U(e.func.value) == "torch"
+            inner = e.args[0] if is_torch and e.args else e.func.value
+            kw = {k.arg: k.value for k in e.keywords}
+            rest = e.args[1:] if is_torch else e.args
+            lo = kw.get("min", rest[0] if rest else None)
+            hi = kw.get("max", rest[1] if len(rest) > 1 else None)
+            if e.func.attr in ("clamp", "clip") and lo is None:
+                return e, floors
+            floors.append(U(lo) if lo is not None else "?")
+            if hi is not None:
+                floors.append("max=" + U(hi))
+            e = inner
+            continue
+        if isinstance(e, ast.BinOp) and isinstance(e.op, ast.Add) and isinstance(e.right, ast.Constant) and isinstance(e.right.value, (int, float)) and isinstance(e.left, ast.BinOp) and isinstance(e.left.op, ast.Div):
+            floors.append("+" + U(e.right))
+            e = e.left
+            continue
+        return e, floors
